@@ -52,8 +52,8 @@ def run(ctx, rep):
     rep.ob("K1", ok, tokf.node, tokf, construct="atom tokens", how="⊆ \\[[^\\[\\].]*\\]", nontrivial=True, key="atom-tokens",
            witness=None if ok else "encoder can print the malformed token %r" % w)
     # ring / branch / index tokens: finite sets from the decoder tables and templates (C10/L1 shows emit ⊆ tables)
-    fin = set(ctx.fold.global_value("selfies.grammar_rules", "_PROCESS_RING_CACHE")) | \
-        set(ctx.fold.global_value("selfies.grammar_rules", "_PROCESS_BRANCH_CACHE")) | \
+    fin = set(__import__("rules.symlang", fromlist=["x"]).symbol_table(ctx, "ring")) | \
+        set(__import__("rules.symlang", fromlist=["x"]).symbol_table(ctx, "branch")) | \
         set(ctx.fold.global_value("selfies.constants", "INDEX_ALPHABET"))
     bad = sorted(s for s in fin if not well.accepts(s))
     rep.ob("K1", not bad, None, None, loc="selfies/grammar_rules.py", construct="%d ring / branch / index symbols" % len(fin),
@@ -115,6 +115,9 @@ def run(ctx, rep):
             g = ctx.db.funcs[q]
             if g is split:
                 continue
+            from rules.C13 import _only_called_from
+            if _only_called_from(ctx, g, {split}):
+                continue                # a private helper of the one tokenizer is part of it (K5 follows it: the engine inlines it)
             for n in own_nodes(g.node):
                 if isinstance(n, ast.Call) and isinstance(n.func, ast.Attribute) and n.func.attr in ("find", "index", "split", "partition") \
                         and n.args and isinstance(n.args[0], ast.Constant) and n.args[0].value in ("[", "]", "]["):
